@@ -5,7 +5,7 @@ import os
 from vlib import common
 from checks import wcommon
 
-CFG = 'CONSTANTS\n Tables = %s\n Mode = "%s"\n Seed = %d\nINIT Init\nNEXT Next\nINVARIANT Emit\nCHECK_DEADLOCK FALSE\n'
+CFG = 'CONSTANTS\n Tables = %s\n Mode = "%s"\n Seed = %d\n PerGroup = %d\nINIT Init\nNEXT Next\nINVARIANT Emit\nCHECK_DEADLOCK FALSE\n'
 
 
 def self_check(chk):
@@ -15,11 +15,14 @@ def self_check(chk):
     chk.add_tlc(r)
 
 
-def gen_files(chk, tables=(1, 2, 3), mode="valid", simulate=None, workers=6, limit=None):
-    cfg = CFG % ("{%s}" % ", ".join(map(str, tables)), mode, common.seed() % 5)
-    r = common.run_tlc("MC_RefGen", constants_text=cfg, simulate=simulate, depth=4 if simulate else None,
-                       workers=workers, timeout=2400)
-    if r.rc != 0 and not (simulate and r.cases):
+def gen_files(chk, tables=(1, 2, 3), mode="valid", simulate=None, workers=6, limit=None, per_group=1):
+    """`simulate` is kept as a size hint only: layouts are drawn with RandomSubset (seeded by VERIF_SEED)
+    inside a breadth-first run (tlc -simulate would evaluate the emitting invariant on every successor)."""
+    if simulate:
+        per_group = max(1, simulate // (24 * len(tables)))
+    cfg = CFG % ("{%s}" % ", ".join(map(str, tables)), mode, common.seed() % 5, per_group)
+    r = common.run_tlc("MC_RefGen", constants_text=cfg, workers=workers, timeout=2400, tseed=common.seed())
+    if r.rc != 0:
         raise common.InfraError("MC_RefGen failed rc=%s\n%s" % (r.rc, r.out[-2000:]))
     chk.add_tlc(r)
     seen, out = set(), []
